@@ -7,17 +7,6 @@ import (
 	istrings "github.com/dolthub/go-mysql-server/internal/strings"
 )
 
-// noPanic runs f and reports a panic as a test failure (the defect) instead of crashing.
-func noPanic(t *testing.T, what string, f func()) {
-	t.Helper()
-	defer func() {
-		if r := recover(); r != nil {
-			t.Errorf("%s panicked: %v", what, r)
-		}
-	}()
-	f()
-}
-
 // C32-Q2 Unquote/s[i+1:i+5]: the guard `i+4 > len(s)` lets a 3-digit \u escape at the end of
 // the input through; the slice s[i+1:i+5] is then out of range.
 func TestC32UnquoteShortUnicodeEscape(t *testing.T) {
